@@ -207,6 +207,19 @@ pub fn directed_shapes(r: &mut StdRng) -> Vec<(String, Vec<Vec<u8>>)> {
             (0..700).map(|i| if i == 699 { 7 } else { (i % 251) as u8 }).collect(),
         ]),
     ));
+    // a key that is a proper prefix of exactly one longer continuation, recurring below several
+    // prefixes (a final state with a single transition that is shareable)
+    for (i, (stem, cont)) in [("a", "bc"), ("alk", "ing"), ("0", "1234567"), ("q", "rs")].iter().enumerate() {
+        let mut keys = vec![];
+        for p in &["x", "y", "zz", "t", "w"][..(2 + i % 4)] {
+            let mut k = p.as_bytes().to_vec();
+            k.extend_from_slice(stem.as_bytes());
+            keys.push(k.clone());
+            k.extend_from_slice(cont.as_bytes());
+            keys.push(k);
+        }
+        out.push((format!("final-one-cont-{}", i), sort_dedup(keys)));
+    }
     // long shared suffixes under different prefixes (every state of the suffix is shareable)
     for &n in &[95usize, 96, 97, 130, 300] {
         let suffix: Vec<u8> = (0..n).map(|i| b'a' + (i % 23) as u8).collect();
